@@ -904,6 +904,42 @@ def check_inplace_fresh(rep, prog, m):
                    what='arrays updated in place are fresh on every path (no cached factor or argument is modified)')
 
 
+def check_partition_recursion(rep, prog):
+    """R-REC: Numerics.part enumerates the genotype-count partitions behind BetaBinomConvolution (inbreeding sampling, any ploidy).
+    Its bounds travel down the recursion as arguments: a self-call that omits a parameter which has a default silently falls back
+    to the default at every deeper level (maxval=2, i.e. diploid), whatever the caller asked for.  Rule: in a self-recursive
+    function every parameter with a default is passed explicitly at each self-call, and the bound parameters (those compared with
+    the running total in the guard) are forwarded unchanged or as the loop value."""
+    nm = prog.mod('dadi.Numerics')
+    fn = nm.funcs.get('part')
+    if fn is None:
+        raise AnalysisError('Numerics.part not found')
+    rep.saw_function(nm.rel + ':part')
+    params = [a.arg for a in fn.args.args]
+    ndef = len(fn.args.defaults)
+    defaulted = params[len(params) - ndef:] if ndef else []
+    calls = [c for c in own_nodes(fn) if isinstance(c, ast.Call) and isinstance(c.func, ast.Name) and c.func.id == fn.name]
+    if not calls:
+        rep.ob('R-REC', 'Numerics.part recursion', False, 'self-call not found', nm.rel, fn.lineno, what='bounds are forwarded down the recursion')
+        return
+    for c in calls:
+        given = set(params[:len(c.args)]) | {k.arg for k in c.keywords if k.arg}
+        star = any(isinstance(a, ast.Starred) for a in c.args) or any(k.arg is None for k in c.keywords)
+        missing = [p_ for p_ in defaulted if p_ not in given]
+        ok = star or not missing
+        det = 'self-call `%s`' % ast.unparse(c)
+        if not ok:
+            det += ' omits %s: deeper levels use the default (%s) instead of the caller\'s value' % (
+                ', '.join(missing), ', '.join('%s=%s' % (p_, ast.unparse(fn.args.defaults[defaulted.index(p_)])) for p_ in missing))
+        else:
+            # the upper bound must reach the callee unchanged
+            bound = dict(zip(params, c.args))
+            bound.update({k.arg: k.value for k in c.keywords if k.arg})
+            if 'maxval' in bound and ast.unparse(bound['maxval']) != 'maxval':
+                ok, det = False, det + ' passes `%s` as maxval: the upper bound changes down the recursion' % ast.unparse(bound['maxval'])
+        rep.ob('R-REC', 'Numerics.part recursion', ok, det, nm.rel, c.lineno, what='every defaulted parameter (the bounds minval/maxval) is forwarded at each self-call')
+
+
 def run(rep, prog, tier):
     m = prog.mod(SM)
     rep.saw_file(m.rel)
@@ -914,6 +950,7 @@ def run(rep, prog, tier):
     # memo tables on the inbreeding sampling path: the key must determine the cached value (rule shared with C20)
     for q, cache in (('BetaBinomln', '_BetaBinomln_cache'), ('multinomln', '_multinomln_cache'), ('cached_part', '_part_cache'), ('cached_part_precalc', '_part_precalc_cache')):
         c20.rule_key_full(rep, prog, 'dadi.Numerics', q, cache)
+    check_partition_recursion(rep, prog)
     check_dispatch(rep, prog, m)
     check_inplace_fresh(rep, prog, m)
     # sampling is a linear functional of the density: no clamp, absolute value, threshold, product of two density terms ...
